@@ -1181,7 +1181,7 @@ func vC18CaseGated(t *testing.T, r *rand.Rand, out *vC18Out) {
 	same := func(x *BlockList, y *BlockList) bool {
 		xm, xw, _ := vC18Dump(x)
 		ym, yw, _ := vC18Dump(y)
-		return strings.Join(xm, "\n") == strings.Join(ym, "\n") && strings.Join(xw, "\n") == strings.Join(yw, "\n")
+		return fmt.Sprintf("%q %q", xm, xw) == fmt.Sprintf("%q %q", ym, yw)
 	}
 	// a call that is certain to change nothing
 	noop := func() vC18Op {
@@ -1223,7 +1223,7 @@ func vC18CaseGated(t *testing.T, r *rand.Rand, out *vC18Out) {
 			bm0, bw0, _ := vC18Dump(ref)
 			ret := op.apply(ref) // the reference list tells what the call does
 			bm1, bw1, _ := vC18Dump(ref)
-			changed := strings.Join(bm0, "\n") != strings.Join(bm1, "\n") || strings.Join(bw0, "\n") != strings.Join(bw1, "\n")
+			changed := fmt.Sprintf("%q %q", bm0, bw0) != fmt.Sprintf("%q %q", bm1, bw1)
 			if ret > 0 && !changed && i < 50 {
 				// succeeds without changing memory (Set of a present key): its progress cannot be
 				// observed from outside; undo nothing (ref unchanged) and pick another call
